@@ -80,6 +80,7 @@ Comparing
   equal_under(guard, a, b)           identity after substituting the equalities the guard forces (x<=y & y<=x)
   equal_guarded(A, B, assume=())     A, B = [(guard, term)]; every pair with a consistent joint guard must
                                       have equal terms; returns (True, None) or (False, (gA, tA, gB, tB))
+  in_order_vocabulary(literals)      all literals are plain order comparisons (a consistent guard is then satisfiable)
   consistent(literals)               sound refutation of a conjunction of comparison literals: l and not l,
                                       and the theory of a total order (<, <=, =, != between identical terms;
                                       numeric constants ordered); complete for independent operands
@@ -735,9 +736,32 @@ def _lit_parts(l):
     return p, l.args[0], l.args[1], n
 
 
+_DIFF = {}
+_CONS = {}
+
+
+def _diff(x, y):
+    """expand(y - x), memoised"""
+    k = (x, y)
+    d = _DIFF.get(k)
+    if d is None:
+        d = _DIFF[k] = sp.expand(y - x)
+    return d
+
+
 def consistent(literals):
+    key = frozenset(literals)
+    r = _CONS.get(key)
+    if r is None:
+        if len(_CONS) > 200000:
+            _CONS.clear()
+        r = _CONS[key] = _consistent(literals)
+    return r
+
+
+def _consistent(literals):
     """False only if the conjunction is refuted (l and not l; a cycle with a strict edge in the order graph;
-    a != b with a <= b <= a).  Float comparisons are read over the reals (no NaN)."""
+    a != b with a <= b <= a; for integers also x < y => x <= y - 1).  Float comparisons are read over the reals (no NaN)."""
     lits = [l for l in literals if l != TRUE]
     if any(l == FALSE for l in lits):
         return False
@@ -795,12 +819,28 @@ def consistent(literals):
             for x, i in items:
                 for y, j in items:
                     if i < j and not (x.is_Number and y.is_Number):
-                        dlt = sp.expand(y - x)
+                        dlt = _diff(x, y)
                         if dlt.is_Number:
                             if dlt > 0:
                                 lt.add((i, j))
                             elif dlt < 0:
                                 lt.add((j, i))
+        # integers are discrete: x < y implies x <= y - 1 and x + 1 <= y (neither y - 1 nor x + 1 can wrap when x < y)
+        if dom in ('s', 'u') and lt:
+            items = list(nodes.items())
+            one = {}
+            for x, i in items:
+                for y, j in items:
+                    if i != j and not (x.is_Number and y.is_Number):
+                        if _diff(x, y) == 1:
+                            one[(i, j)] = True          # node j = node i + 1
+            if one:
+                for (i, j) in list(lt):
+                    for (k, k1) in one:
+                        if k1 == j:
+                            le.add((i, k))              # i < j = k + 1  =>  i <= k
+                        if k == i:
+                            le.add((k1, j))             # k1 = i + 1, i < j  =>  k1 <= j
         n = len(nodes)
         INF = 9
         # reach[i][j] = 0 (i<=j), 1 (i<j), INF none
@@ -828,6 +868,22 @@ def consistent(literals):
             if i == j or (R[i][j] != INF and R[j][i] != INF):
                 if i == j or (R[i][j] == 0 and R[j][i] == 0):
                     return False
+    return True
+
+
+def in_order_vocabulary(literals):
+    """True if every literal is a comparison the order theory of `consistent` interprets, with Sel-free operands that are
+    not bit-level atoms: only then is a guard that `consistent` accepts really satisfiable (needed before a mismatch
+    under that guard may be reported as a violation rather than as undecided)"""
+    for l in literals:
+        if l in (TRUE, FALSE):
+            continue
+        pp = _lit_parts(l)
+        if pp is None:
+            return False
+        for x in (pp[1], pp[2]):
+            if x.has(Sel) or any(re.match(r'^(and|or|xor|op_|bits_|ashr)', a.func.__name__) for a in all_atoms(x)):
+                return False
     return True
 
 
@@ -2192,8 +2248,29 @@ class Interp:
                             return u
                         if k == 0:
                             return const_int(N, 0)
+                        if k % 8 == 0 and k < N:
+                            pp = self.parts_of(u, None)
+                            if pp and pp[0][0] == 0 and pp[0][1].kind == 'i' and pp[0][1].bits == k:
+                                return self.zext(P, pp[0][1], N)
                         org = ('zext', self.trunc(P, u, k)) if (k % 8 == 0 and k < N) else None
                         return IntV(N, u.term - 2 ** k * atom('udiv%d' % N, u.term, 2 ** k), sx=True, ux=True, mag=k, org=org)
+                    if op == 'and' and c != 0:
+                        # sign-bit mask over the pieces of a packed word: (packed & 0x80000000_80000000) tests the signs
+                        pp = self.parts_of(u, None)
+                        if pp and all(pv.kind == 'i' for _, pv in pp):
+                            cm = c & ((1 << N) - 1)
+                            picked = []
+                            rest = cm
+                            okm = True
+                            for (bo, pv) in pp:
+                                fm = (cm >> (8 * bo)) & ((1 << pv.bits) - 1)
+                                rest &= ~(((1 << pv.bits) - 1) << (8 * bo))
+                                if fm == 1 << (pv.bits - 1):
+                                    picked.append(pv)
+                                elif fm != 0:
+                                    okm = False
+                            if okm and rest == 0 and picked:
+                                return IntV(N, catom('and%d' % N, a, b), org=('signmask', picked))
                     if op == 'xor' and c == -1:
                         return IntV(N, -u.term - 1, sx=u.sx, ux=False, mag=(u.mag + 1) if u.mag is not None else None)
                     if op in ('or', 'xor') and c == 0:
@@ -2347,6 +2424,16 @@ class Interp:
             return sp.sympify(p.off)
         return sym('&' + base_name(p.base)) + p.off
 
+    def low_part(self, v):
+        """the narrower integer a value is the zero-extension of (IntV), a 0-bit marker for the constant 0, else None"""
+        if v.kind != 'i':
+            return None
+        if v.term == 0:
+            return IntV(0, sp.Integer(0), True, True, 0)
+        if v.org is not None and v.org[0] == 'zext' and v.org[1].kind == 'i':
+            return v.org[1]
+        return None
+
     def select(self, c, x, y):
         if c.kind == 'a':
             return AggV([self.select(ci, (x.elems[i] if x.kind == 'a' else x), (y.elems[i] if y.kind == 'a' else y))
@@ -2370,6 +2457,13 @@ class Interp:
         if x.kind == 'b' or y.kind == 'b':
             return BoolV(_b_or([b_and(cond, x.cond), b_and(neg(cond), y.cond)]))
         if x.kind == 'i':
+            lx, ly = self.low_part(x), self.low_part(y)
+            if lx is not None and ly is not None and (lx.bits == ly.bits or lx.bits == 0 or ly.bits == 0) and max(lx.bits, ly.bits) < x.bits:
+                nb = max(lx.bits, ly.bits)
+                if nb:
+                    lx = lx if lx.bits else const_int(nb, 0)
+                    ly = ly if ly.bits else const_int(nb, 0)
+                    return self.zext(Path(), self.select(c, lx, ly), x.bits)
             mag = max(x.mag, y.mag) if (x.mag is not None and y.mag is not None) else None
             return IntV(x.bits, mk_sel(cond, x.term, y.term), x.sx and y.sx, x.ux and y.ux, mag)
         if x.kind == 'p':
@@ -2590,6 +2684,12 @@ class Interp:
                         return BoolV(_b_or([b_and(p.cond, neg(q.cond)), b_and(neg(p.cond), q.cond)]))
                     raise Undecided('ordered comparison of i1')
                 p, q = self.as_int(p), self.as_int(q)
+                if a['pred'] in ('eq', 'ne'):
+                    for u, v in ((p, q), (q, p)):
+                        if u.org is not None and u.org[0] == 'signmask' and v.term == 0:
+                            anyneg = _b_or([ilit('slt', pv.term, 0) for pv in u.org[1]]) if all(pv.sx for pv in u.org[1]) else None
+                            if anyneg is not None:
+                                return BoolV(neg(anyneg) if a['pred'] == 'eq' else anyneg)
                 return BoolV(ilit(a['pred'], p.term, q.term))
             env[i.res] = self.lanewise(ic, x, y)
             return None
